@@ -32,7 +32,7 @@ struct Item {
         o.poison();
         return *this;
     }
-    Item(const Item &) = delete;
+    Item(const Item &o) : v(o.get()), chk(~v) { ++g_item_live; }  // copying leaves the source as it is
     ~Item() {
         --g_item_live;
         poison();
@@ -46,6 +46,22 @@ struct Item {
 };
 
 enum Op { PUSH = 0, POP = 1, UNBLOCK = 2, NOPS = 3 };
+
+// a completion function attached to every pop / push that has to wait: it runs when the operation is completed (inside
+// the other party's push / pop / unblock_push) and looks at the queue - completions must run outside the queue's lock
+struct ReenterAw : cocls::awaiter {
+    void *q;
+    size_t (*size_fn)(void *);
+    int fired = 0;
+    ReenterAw(void *qq, size_t (*fn)(void *)) : q(qq), size_fn(fn) {
+        set_resume_fn([](cocls::awaiter *me, void *) noexcept -> cocls::suspend_point<void> {
+            auto *s = static_cast<ReenterAw *>(me);
+            s->fired++;
+            if (s->q) (void)s->size_fn(s->q);
+            return {};
+        });
+    }
+};
 static const char *op_names[] = {"push", "pop", "unblock_push"};
 
 struct Model {
@@ -130,6 +146,15 @@ static void run_case(seqx::Runner &R, size_t limit, const std::vector<int> &seq)
         auto q = std::make_unique<cocls::limited_queue<Item>>(limit);
         std::vector<std::unique_ptr<cocls::future<void>>> pushes;
         std::vector<std::unique_ptr<cocls::future<Item>>> pops;
+        std::vector<std::unique_ptr<ReenterAw>> watchers;
+        auto watch = [&](auto &fut) {
+            if (fut.ready()) return;
+            seqx::NoCount nc;
+            watchers.emplace_back(new ReenterAw(q.get(), [](void *p) { return static_cast<cocls::limited_queue<Item> *>(p)->size(); }));
+            using F = std::remove_reference_t<decltype(fut)>;
+            cocls::co_awaiter<F> aw(fut);
+            if (!aw.subscribe(watchers.back().get())) watchers.back()->fired++;
+        };
         int next_val = 1;
         auto compare = [&](size_t step) {
             for (size_t i = 0; i < pushes.size(); i++) {
@@ -187,9 +212,21 @@ static void run_case(seqx::Runner &R, size_t limit, const std::vector<int> &seq)
             R.step();
             if (op == PUSH) {
                 int v = next_val++;
-                pushes.emplace_back(new cocls::future<void>(q->push(Item(v))));
+                if (v & 1)
+                    pushes.emplace_back(new cocls::future<void>(q->push(Item(v))));
+                else {
+                    // a named item: push copies it; the producer's object stays usable whatever happens to this push
+                    Item mine(v);
+                    pushes.emplace_back(new cocls::future<void>(q->push(mine)));
+                    if (mine.get() != v) {
+                        R.fail("lq/push-consumed-lvalue", "step %zu: push(lvalue) left the producer's own item as %d instead of %d", i, mine.get(), v);
+                        ok = false;
+                    }
+                }
+                watch(*pushes.back());
             } else if (op == POP) {
                 pops.emplace_back(new cocls::future<Item>(q->pop()));
+                watch(*pops.back());
             } else {
                 bool r = q->unblock_push(std::make_exception_ptr(TestError(7)));
                 if ((int)r != exp) {
@@ -206,7 +243,19 @@ static void run_case(seqx::Runner &R, size_t limit, const std::vector<int> &seq)
             R.state(key);
         }
         // teardown: destroying the queue cancels waiting pops and drops blocked pushes (their promises die)
+        for (auto &w : watchers) w->q = nullptr;
         q.reset();
+        if (ok)
+            for (auto &w : watchers)
+                if (w->fired != 1) {
+                    R.fail(w->fired ? "lq/completion-fired-twice" : "lq/completion-never-fired", "a completion function attached to a waiting operation ran %d times", w->fired);
+                    break;
+                }
+        {
+            seqx::NoCount nc;
+            watchers.clear();
+            watchers.shrink_to_fit();
+        }
         if (ok) {
             for (size_t i = 0; i < pops.size(); i++)
                 if (!pops[i]->ready()) R.fail("lq/pop-hangs-after-destroy", "pop #%zu still pending after the queue was destroyed", i);
